@@ -254,7 +254,7 @@ type inst struct {
 	events        []Access
 	emit          bool
 	reach         map[*ssa.Function]bool
-	rets          []prov
+	retVals       []ssa.Value
 	defers        []deferred
 	callSummaries map[*ssa.Call]*summary
 }
@@ -863,21 +863,10 @@ func (a *Analyzer) analyze(fn *ssa.Function, entry LockSet, args []prov) *summar
 		s.exit = exit
 	}
 	s.events = in.events
-	// result provenance
+	// result provenance: fresh only if every returned (non-nil) value is fresh
 	var ret prov
-	for k, r := range in.rets {
-		if k == 0 {
-			ret = r
-		} else if r.key() != ret.key() {
-			if ret.kind == pFresh || r.kind == pFresh {
-				if ret.kind == pFresh {
-					ret = r
-				}
-				if ret.kind == pFresh {
-					ret = prov{}
-				}
-			}
-		}
+	if len(in.retVals) > 0 {
+		ret = in.joinProv(in.retVals)
 	}
 	s.ret = ret
 	s.inProgress = false
@@ -935,7 +924,7 @@ func (in *inst) transfer(b *ssa.BasicBlock, locks LockSet) (LockSet, bool) {
 				for _, r := range x.Results {
 					_, isStruct := r.Type().Underlying().(*types.Struct)
 					if isRefLike(r.Type()) || isStruct {
-						in.rets = append(in.rets, in.prov(r))
+						in.retVals = append(in.retVals, r)
 						break
 					}
 				}
